@@ -21,7 +21,7 @@ SPECIFIC = {
  'C03': ("Proved: every extracted function with a verified body (all of lib.rs, builder.rs, node_id.rs, error.rs, keys/mod.rs, keys/combined.rs, enr_to_public/decode_public/enr_key of the back-ends) is free of panics (expect/unwrap/index/slice/copy_from_slice preconditions), of arithmetic overflow and terminates, under valid() for &self/&mut self methods (valid() is the invariant proved under C05) and with no precondition for decode, from_str, NodeId::parse, builder calls and mutator arguments; remove_insert needs the caller's iterators to obey the iterator laws.",
          "Also covered: Display for Enr, Hash for Enr, Display/Debug for NodeId, and the k256/ed25519 back-end bodies except k256 encode_uncompressed. NOT covered: Debug for Enr, serde (de)serialisers, EnrIntoIter/iter(), k256 encode_uncompressed (contains unwraps on library results), NodeId::random, CombinedKey::generate_*, allocation failure."),
  'C04': ("Proved: decode Ok(e) ==> record_rlp(e) == the consumed item (canonical uniqueness lemma, spec/52) and e's fields == independent oracle parse; encode appends exactly record_rlp (trait-level ensures), size() is its length; valid(e) ==> the oracle accepts record_rlp(e) and reports e's fields (round-trip theorem, spec/51); builder and every update establish valid(); to_base64/from_str are inverse up to the assumed base64 engine.",
-         "NOT covered: the JSON leg (serde impls are not extracted); base64 canonical strictness is the engine's assumed contract."),
+         "JSON leg: Serialize for Enr hands the serializer exactly the text form as ONE string and Deserialize for Enr accepts a document iff it is one string that from_str accepts (verified against a reduced serde stand-in: a serializer that is handed one string, a deserializer that holds one string or not). base64 canonical strictness is the engine's assumed contract; serde_json's own string escaping/parsing is outside."),
  'C05': ("Proved by induction over all histories (representation invariant): valid() = all values exactly one well-typed RLP item, id v4, signature verifies under the carried key, node id = keccak(uncompressed key), record_rlp <= 300 bytes -- established by Builder::build, Enr::empty, decode, clone and preserved by all 22 public mutators incl. remove_insert; re-keying clauses (pk() == signer's key) for every mutator; with the round-trip theorem valid() implies the decoder accepts the record again. Holds for every K meeting the key-trait contract, including variable-length signature schemes.",
          "Precondition 'spec_compatible' formalises 'another key of the same signature scheme' (for CombinedKey: an ed25519 key cannot re-key content that holds a valid secp256k1 entry). Trait laws L1/L2/L4 are PROVED for CombinedKey from its components and for the k256/ed25519 back-ends from the assumed contracts of the library primitives (sign-then-verify, key round trip)."),
  'C06': ("Proved: r is Err ==> same_as(old) (seq, node id, pairs, signature) on all 22 mutators, for every error cause; sign_v4 may return Err at any call (signing faults are part of the trait contract), checked_add may overflow.",
@@ -37,7 +37,7 @@ SPECIFIC = {
  'C11': ("REDUCED CLAIM. Proved: CombinedKey::enr_to_public precedence (secp256k1 entry wins whenever it is a valid key, else ed25519), variant-wise dispatch of sign_v4/public/verify_v4/encode/encode_uncompressed/enr_key, L1/L2/L4 for CombinedKey from its components; each single-scheme enr_to_public reads exactly its own key name, RLP-decodes the entry as a byte string and fails when absent; decode::<K> depends on K only through spec_enr_to_public/spec_verify_v4 (parametricity is visible in dec_ok's definition).",
          "NOT decided: that k256 and libsecp256k1 implement the same parsing/verification predicates (rust_secp256k1.rs is FFI, not extracted)."),
  'C12': ("Proved: to_base64 == 'enr:' + URL_SAFE_NO_PAD text of record_rlp; from_str Ok(e) ==> the string is the text (with or without prefix) of some x that is EXACTLY one acceptable record and e reports x's fields; both spellings of an acceptable record's text are accepted. Engine constants have distinct ghost identities.",
-         "Display for Enr writes exactly that text (verified). Padding/alphabet/trailing-bit strictness is the assumed contract of the base64 engine (accepts exactly canonical texts); the JSON string (serde) is not extracted."),
+         "Display for Enr writes exactly that text (verified). Padding/alphabet/trailing-bit strictness is the assumed contract of the base64 engine (accepts exactly canonical texts); the JSON string is covered for Enr through the reduced serde stand-in (one string token in, one string token out); serde_json itself is outside."),
  'C13': ("Proved: decode's outcome and record are functions of the first item only (dec_ok/dec_post mention only item_raw(buf, hdr)); on Ok the buffer is advanced by exactly item_total.",
          "Lists/streams of records follow from this contract plus alloy-rlp's assumed Vec<T> decoder."),
  'C14': ("Proved: each typed getter (ip4, ip6, tcp4, tcp6, udp4, udp6, id, get_raw_rlp, get_decodable, get) is a stated function of the raw stored value; setters/builder methods store rlp_uint(port)/rlp_str(octets) which read back (lemma_port_stored, lemma_ip*_stored); sockets/reachability are exactly the combination of the same family's ip and port accessors.",
@@ -45,7 +45,7 @@ SPECIFIC = {
  'C15': ("Proved: == is exactly equality of (seq, node id, signature) -- an equivalence relation by construction; clone is observationally identical; compare_content == (content_rlp(a) == content_rlp(b)); content_rlp is injective on valid content (lemma_content_rlp_injective); re-encode/decode image equal via C04.",
          "Hash for Enr feeds the hasher exactly (seq, node id, signature), the triple == compares, so equal records hash equally for every Hasher (ghost trace hasher_fed/hash_tok; that Vec<u8>, u64 and NodeId feed a function of their value is assumed). 'equal records carry identical pairs' needs signature unforgeability."),
  'C16': ("Proved (Verus, unbounded): parse Ok <==> len == 32 and Ok(id).raw == input; new/raw/From/AsRef/PartialEq identities. Kani function contract on the real NodeId::parse (slices <= 64 bytes, bounded) and a full-domain identity harness over all 32-byte values.",
-         "Debug writes 0x + 64 lower-case hex digits and Display 0x + first two bytes + '..' + last two bytes (verified against the hex crate's assumed contract hex_chars). NOT covered: the serde hex (de)serialiser."),
+         "Debug writes 0x + 64 lower-case hex digits and Display 0x + first two bytes + '..' + last two bytes (verified against the hex crate's assumed contract hex_chars). The serde DEserialiser of NodeId (derive + serde_hex_prfx, i.e. compiler-generated code included) is checked by a BOUNDED Kani harness: for every ASCII string of at most 70 bytes it is Ok exactly for 64 hex digits with or without one 0x prefix and yields those bytes. NOT covered: the serde serialiser of NodeId (format! + hex::encode did not terminate in CBMC within 20 minutes), non-ASCII input strings."),
  'C17': ("REDUCED CLAIM (glue only). Proved: secp256k1_from_bytes / ed25519_from_bytes succeed exactly when the library accepts the bytes, zero the buffer on success, leave it untouched on failure, store the same secret in the right variant; encode returns the variant's secret; public/sign dispatch.",
          "ASSUMED (stand-ins): which scalars the libraries accept ([1, n-1] / 32 bytes), public-key derivation, to_bytes(from_slice(b)) == b, signatures verify (L1)."),
 }
